@@ -22,6 +22,7 @@
 #include <string>
 #include <vector>
 #include <fcntl.h>
+#include <sys/time.h>
 #include <sys/wait.h>
 #include <unistd.h>
 
@@ -101,9 +102,21 @@ inline void set_case(const std::string& c) {
   memcpy(g_case, c.data(), n);
   g_case[n] = 0;
   g_in_case = true;
-  alarm(g_case_timeout);
+  // watchdog: g_case_timeout seconds of CPU time of this process (immune to machine load), and a generous wall-clock
+  // limit for a case that blocks without consuming CPU
+  struct itimerval tv;
+  memset(&tv, 0, sizeof tv);
+  tv.it_value.tv_sec = g_case_timeout;
+  setitimer(ITIMER_PROF, &tv, nullptr);
+  alarm(g_case_timeout * 30);
 }
-inline void end_case() { g_in_case = false; alarm(0); }
+inline void end_case() {
+  g_in_case = false;
+  struct itimerval tv;
+  memset(&tv, 0, sizeof tv);
+  setitimer(ITIMER_PROF, &tv, nullptr);
+  alarm(0);
+}
 
 inline void crash_out(const char* kind) {
   if (g_probe_child) return;
@@ -132,9 +145,10 @@ inline void on_signal(int sig) {
     case SIGBUS: k = "SIGBUS"; break;
     case SIGILL: k = "SIGILL"; break;
     case SIGALRM: k = "TIMEOUT"; break;
+    case SIGPROF: k = "TIMEOUT"; break;
   }
   crash_out(k);
-  _exit(g_probe_child ? 77 : (sig == SIGALRM ? 4 : 3));
+  _exit(g_probe_child ? 77 : ((sig == SIGALRM || sig == SIGPROF) ? 4 : 3));
 }
 
 inline void on_terminate() {
@@ -151,7 +165,7 @@ inline void on_terminate() {
 }
 
 inline void install_handlers() {
-  for (int s : {SIGSEGV, SIGABRT, SIGFPE, SIGBUS, SIGILL, SIGALRM}) signal(s, on_signal);
+  for (int s : {SIGSEGV, SIGABRT, SIGFPE, SIGBUS, SIGILL, SIGALRM, SIGPROF}) signal(s, on_signal);
   std::set_terminate(on_terminate);
 }
 
